@@ -7,17 +7,17 @@ CLAIMED = {
    text="Static dependence analysis of structural necessary conditions: the $Number$ and the $Time$ lookup fill the segment metadata from the same sources (original time/number/duration from the selected VoD segment, timescale from the representation; new time by number from VoD start, loop duration and requested number; new number by time from configured start number, loop duration and requested time); the served segment is rewritten from that metadata (sequence number from the new number, decode time and sidx time from the new time) and embedded TTML timestamps are shifted by the very value the decode time is shifted by. The arithmetic itself (which VoD segment, exact times, contiguity across wraps), sample identity and byte-identical thumbnails are not decided.",
    note="Dependence slices over-approximate: a reported missing dependence is definite, a present one is not a proof of the right formula. This is the only structural clause of C01 within reach; the value clauses remain not applicable to static analysis.",
    technique="static analysis: backward dependence slices over SSA (sibling agreement on metadata sources, must-depend rules on the rewrite)",
-   ref="DESIGN.md §11.9 C01"),
+   ref="DESIGN.md §11.8 C01"),
  "C03": dict(
    text="Static dependence analysis of structural necessary conditions of audio re-segmentation: the audio times the MPD declares and the times at which audio segments are cut are produced by the same boundary function (calcAudioTimeFromRef), whose arguments depend on the reference entries/segment, the reference timescale, the audio representation's frame duration and timescale; every time the MPD emits (first t, every d) and both recipe boundaries are results of that function; the served audio segment's time, duration and number come from the recipe. That segments abut, frame counts, frame identity, padding and the equality of declared and measured frame duration are not decided.",
    note="Dependence slices over-approximate; the two sides read the frame duration from different fields by design, so their equality is not part of the rule.",
    technique="static analysis: callee identity + dependence slices over SSA (sibling agreement between MPD side and segment side)",
-   ref="DESIGN.md §11.9 C03"),
+   ref="DESIGN.md §11.8 C03"),
  "C12": dict(
    text="Static analysis of structural necessary conditions of generated time subtitles: the stpp and wvtt generators receive number, decode time and duration that depend on the reference video segment's metadata and timescale, a UTC time that also depends on the availability start time, and the very same values for both formats; the millisecond timescale is one constant at all its sites (MPD template, timeline conversion, init segments, segment time conversion); the subtitle adaptation set's start number, duration and SegmentTimeline are derived from the video adaptation set's. Which cues a segment contains, their clipping, order and text are not decided.",
    note="Dependence slices over-approximate; constants compared after compiler folding.",
    technique="static analysis: dependence slices over SSA + constant agreement across sites",
-   ref="DESIGN.md §11.9 C12"),
+   ref="DESIGN.md §11.8 C12"),
  "C02": dict(
    text="Static dependence analysis (backward slices over SSA with all-callers parameter semantics) of agreement clauses between the MPD generator and the segment server: at every call of the availability test, in every addressing mode, the availability time depends on availabilityStartTime, the window on timeShiftBufferDepth, the offset on availabilityTimeOffset and 'now' on the request time; every startNumber the MPD generator stores depends on the configured start number that the server's number->segment mapping subtracts; the SegmentTimeline generator's first number and last-entry bound depend on the window times and on the availability time offset. A missing dependence is definite (the slice over-approximates). Numeric equality of declared and served times, durations and numbers is not decided.",
    note="Explicit data dependence only (no control dependence); dependence is over-approximated, so silence is not a proof of agreement; start-up code is assumed not to see request configuration.",
